@@ -209,6 +209,14 @@ def _check_constancy_of_constant_references(expression, source_file_name, errors
     if not ir_util.is_constant_type(expression.type):
         referred_name = expression.constant_reference.canonical_name
         referred_object = ir_util.find_object(referred_name, ir)
+        # Generated fields have no location of their own: the alias of a member
+        # of an anonymous `bits` has a real name, `$size_in_bytes` only an
+        # enclosing type.
+        note_location = (
+            referred_object.source_location
+            or referred_object.name.source_location
+            or ir_util.find_parent_object(referred_name, ir).source_location
+        )
         errors.append(
             [
                 error.error(
@@ -218,7 +226,7 @@ def _check_constancy_of_constant_references(expression, source_file_name, errors
                 ),
                 error.note(
                     referred_name.module_file,
-                    referred_object.source_location,
+                    note_location,
                     "{} is not constant.".format(referred_name.object_path[-1]),
                 ),
             ]
